@@ -380,6 +380,7 @@ func (x *execution) stepReader(rd *reader, ev string) bool {
 		// the goroutine (it may hold the buffer's read lock) is abandoned.
 		rd.dead = true
 		x.hung = true
+		hangs++
 		x.w.Emit(tr.Ev{"ev": "rderr", "r": rd.id, "got": [][2]int{}, "msg": "no progress for 20 s inside the buffer's code"})
 		return false
 	}
@@ -398,8 +399,15 @@ func (x *execution) stepReader(rd *reader, ev string) bool {
 	return true
 }
 
+// hangs counts the subscribers that never came back (each costs 20 s and leaves a spinning
+// goroutine behind): after a few of them the rest of the script is not executed.
+var hangs int
+
 func runScript(o *tr.Opts, w *tr.Writer) {
 	for _, ex := range tr.ReadScript(o.Script) {
+		if hangs >= 3 {
+			break
+		}
 		runExecution(w, ex)
 	}
 }
@@ -642,8 +650,13 @@ func storm(w *tr.Writer, seed int64, c stormCfg) {
 		}
 	}
 	var nflush int32
+	var stopsMu sync.Mutex
+	var stops []int64 // stop time of every rotated buffer that has reached flushFn, in order
 	flushFn := func(start, stop time.Time, buf []byte) {
 		atomic.AddInt32(&inFn, 1)
+		stopsMu.Lock()
+		stops = append(stops, stop.UnixNano())
+		stopsMu.Unlock()
 		n := atomic.AddInt32(&nflush, 1)
 		for i := 0; i < delays[int(n)%len(delays)]; i++ {
 			runtime.Gosched()
@@ -672,7 +685,28 @@ func storm(w *tr.Writer, seed int64, c stormCfg) {
 		"unit": strconv.FormatInt(tm.unit, 10), "k": k, "psz": 8})
 
 	var rotMu sync.Mutex // appender and harness timer take turns, so that the lag bound holds
-	lagOK := func() bool { return lb.VerifQueued()+int(atomic.LoadInt32(&inFn)) <= 2 }
+	// An upper bound of the rotated buffers whose flush has not completed: those still queued, those
+	// that have reached flushFn, possibly one on its way from the channel to flushFn, minus those the
+	// buffer itself treats as flushed (a read from just before their end is sent to the disk).  Only
+	// called by the goroutine that holds rotMu.
+	completed := 0
+	lagOK := func() bool {
+		q := lb.VerifQueued()
+		stopsMu.Lock()
+		arrived := append([]int64(nil), stops...)
+		stopsMu.Unlock()
+		for completed < len(arrived) {
+			b, err := lb.ReadFromBuffer(time.Unix(0, arrived[completed]-1))
+			if b != nil {
+				lb.ReleaseMemory(b)
+			}
+			if err != log_buffer.ResumeFromDiskError {
+				break
+			}
+			completed++
+		}
+		return q+len(arrived)+1-completed <= 2
+	}
 	waitLag := func() {
 		for !lagOK() {
 			runtime.Gosched()
@@ -902,6 +936,7 @@ func storm(w *tr.Writer, seed int64, c stormCfg) {
 	case <-time.After(30 * time.Second):
 		// a subscriber that neither finishes nor waits long after everything has been flushed
 		w.Emit(tr.Ev{"ev": "rderr", "r": 0, "got": [][2]int{}, "msg": "a subscriber made no progress for 30 s after the log went quiet"})
+		hangs++
 	}
 }
 
@@ -911,7 +946,7 @@ func runStorm(o *tr.Opts, w *tr.Writer) {
 	if n == 0 {
 		n = 50
 	}
-	for i := 0; i < n; i++ {
+	for i := 0; i < n && hangs < 3; i++ {
 		c := stormCfg{mode: "hook", tm: tmap{unit: 1, k: 1}, events: 10 + rng.Intn(40), readers: 1 + rng.Intn(3),
 			cap: 1 + rng.Intn(5), interval: 2 + rng.Intn(6), varsize: rng.Intn(3) == 0, timer: rng.Intn(2) == 0,
 			slowFlush: rng.Intn(2) == 0}
